@@ -1,42 +1,82 @@
 #!/usr/bin/env python3
-"""tools_seeded.py [--tier quick|thorough] [id-regex]
-Run the registered checks against every seeded change under /verif/seeded:
-apply the patch to /repo, run ./check <property> for the property the change
-breaks (meta.json "property", plus "also" if listed), undo the patch.
-Writes seeded/RESULTS.md."""
-import json, os, re, subprocess, sys, time
+"""tools_seeded.py [--tier quick|thorough] [--inplace] [-j N] [id-regex]
+Run the registered checks against every seeded change under /verif/seeded.
+
+Default: for each change a scratch worktree of /repo HEAD is created under
+/var/tmp, the patch is applied THERE, and ./check is pointed at it through
+VERIF_REPO (the checks rebuild everything from that tree; nothing else
+differs), N changes at a time; the worktree is removed afterwards.
+--inplace: apply the patch to /repo itself, run, and `git checkout -- .`
+afterwards (one at a time).  Appends a table to seeded/RESULTS.md."""
+import json, os, re, subprocess, sys, time, shutil
+from concurrent.futures import ThreadPoolExecutor
 HERE = os.path.dirname(os.path.abspath(__file__))
-tier = "quick"
+tier, inplace, par = "quick", False, 3
 args = sys.argv[1:]
-if args and args[0] == "--tier":
-    tier = args[1]; args = args[2:]
+while args and args[0].startswith("-"):
+    if args[0] == "--tier":
+        tier = args[1]; args = args[2:]
+    elif args[0] == "--inplace":
+        inplace = True; args = args[1:]
+    elif args[0] == "-j":
+        par = int(args[1]); args = args[2:]
+    else:
+        break
 pat = args[0] if args else "."
-rows = []
-for d in sorted(os.listdir(os.path.join(HERE, "seeded"))):
+ids = [d for d in sorted(os.listdir(os.path.join(HERE, "seeded")))
+       if os.path.isdir(os.path.join(HERE, "seeded", d)) and re.search(pat, d)]
+
+
+def run_checks(props, env):
+    rows = []
+    for p in props:
+        t0 = time.time()
+        r = subprocess.run([os.path.join(HERE, "check"), p, "--tier", tier, "--no-evidence",
+                            "--jobs", "16" if inplace else "8"],
+                           capture_output=True, text=True, cwd=HERE, env=env)
+        vio = [l for l in r.stdout.splitlines() if l.startswith("VIOLATION")]
+        und = [l for l in r.stdout.splitlines() if l.startswith("UNDECIDED")]
+        jobs = sorted({l.split()[1].rstrip(":") for l in r.stdout.splitlines() if l.strip().startswith("job ")})
+        status = "CAUGHT" if r.returncode == 1 and vio else ("UNDECIDED" if r.returncode == 2 else "MISSED")
+        rows.append((p, status, "%d violation line(s); obligations: %s; %.0fs%s" % (
+            len(vio), ", ".join(jobs)[:200], time.time() - t0, ("; " + und[0][:150]) if und else "")))
+    return rows
+
+
+def one(d):
     full = os.path.join(HERE, "seeded", d)
-    if not os.path.isdir(full) or not re.search(pat, d):
-        continue
     meta = json.load(open(os.path.join(full, "meta.json")))
     props = [meta["property"]] + meta.get("also", [])
-    assert subprocess.run(["git", "-C", "/repo", "status", "--porcelain", "--untracked-files=no"], capture_output=True).stdout == b"", "repo dirty"
-    r = subprocess.run(["git", "-C", "/repo", "apply", os.path.join(full, "patch.diff")], capture_output=True)
-    if r.returncode != 0:
-        rows.append((d, props[0], "PATCH-DOES-NOT-APPLY", ""))
-        continue
+    if inplace:
+        st = subprocess.run(["git", "-C", "/repo", "status", "--porcelain", "--untracked-files=no"], capture_output=True)
+        assert st.stdout == b"", "repo dirty"
+        if subprocess.run(["git", "-C", "/repo", "apply", os.path.join(full, "patch.diff")], capture_output=True).returncode != 0:
+            return [(d, props[0], "PATCH-DOES-NOT-APPLY", "")]
+        try:
+            return [(d,) + r for r in run_checks(props, dict(os.environ))]
+        finally:
+            subprocess.run(["git", "-C", "/repo", "checkout", "--", "."])
+    w = "/var/tmp/verif.seeded.%d.%s" % (os.getpid(), d)
+    subprocess.run(["git", "-C", "/repo", "worktree", "add", "--detach", w, "HEAD"], capture_output=True)
     try:
-        for p in props:
-            t0 = time.time()
-            r = subprocess.run([os.path.join(HERE, "check"), p, "--tier", tier, "--no-evidence"], capture_output=True, text=True, cwd=HERE)
-            vio = [l for l in r.stdout.splitlines() if l.startswith("VIOLATION")]
-            und = [l for l in r.stdout.splitlines() if l.startswith("UNDECIDED")]
-            jobs = sorted({l.split()[1].rstrip(":") for l in r.stdout.splitlines() if l.strip().startswith("job ")})
-            status = "CAUGHT" if r.returncode == 1 and vio else ("UNDECIDED" if r.returncode == 2 else "MISSED")
-            rows.append((d, p, status, "%d violation line(s); obligations: %s; %.0fs%s" % (
-                len(vio), ", ".join(jobs)[:200], time.time() - t0, ("; " + und[0][:150]) if und else "")))
-            print(rows[-1], flush=True)
+        if subprocess.run(["git", "-C", w, "apply", os.path.join(full, "patch.diff")], capture_output=True).returncode != 0:
+            return [(d, props[0], "PATCH-DOES-NOT-APPLY", "")]
+        env = dict(os.environ, VERIF_REPO=w)
+        return [(d,) + r for r in run_checks(props, env)]
     finally:
-        subprocess.run(["git", "-C", "/repo", "checkout", "--", "."])
+        subprocess.run(["git", "-C", "/repo", "worktree", "remove", "--force", w], capture_output=True)
+        shutil.rmtree(w, ignore_errors=True)
+
+
+rows = []
+with ThreadPoolExecutor(1 if inplace else par) as ex:
+    for rs in ex.map(one, ids):
+        for r in rs:
+            print(r, flush=True)
+            rows.append(r)
+head = subprocess.run(["git", "-C", "/repo", "rev-parse", "--short", "HEAD"], capture_output=True, text=True).stdout.strip()
 with open(os.path.join(HERE, "seeded", "RESULTS.md"), "a") as f:
-    f.write("\n## run %s tier=%s filter=%s\n\n| seeded change | property | result | detail |\n|---|---|---|---|\n" % (time.strftime("%Y-%m-%d %H:%M"), tier, pat))
+    f.write("\n## run %s tier=%s filter=%s mode=%s /repo HEAD=%s\n\n| seeded change | property | result | detail |\n|---|---|---|---|\n"
+            % (time.strftime("%Y-%m-%d %H:%M"), tier, pat, "inplace" if inplace else "worktree", head))
     for r in rows:
         f.write("| %s | %s | %s | %s |\n" % r)
